@@ -1,5 +1,5 @@
 """C03 - see DESIGN.md section 6/C03.  Parts: KernelImpl.tla (TLC) + kernel/subject traces vs Contract.tla (C03 clauses)."""
-import vlib, parts_kernel, parts_multi, parts_pipeline as pp, common
+import vlib, parts_kernel, parts_multi, parts_subject, parts_pipeline as pp, common
 
 PID = 'C03'
 
@@ -14,6 +14,8 @@ def main(argv):
     # schedule replay: one preemption at every hook point (lock boundary / check-then-act window) of a victim producer, operator-level scenarios
     parts_kernel.trace_part(rep, PID, 120 if thorough else 45, [s * 100 + 70 + i for i in range(4 if thorough else 1)], driver='drive-park', label='drive-park')
     pp.run(rep, PID, common.pipeline_cfgs(rep, 'cuts'))
+    # subjects: an observer that left (unsubscribed before, during or after Subscribe, or terminated) is no longer held by the subject (getters after every operation)
+    parts_subject.run_seq(rep, PID, thorough)
     # multi-source operators: every input released exactly once, also when one input's teardown panics
     parts_multi.run(rep, PID, thorough)
     parts_multi.run_ho(rep, PID, thorough)
@@ -30,6 +32,8 @@ def replay(path):
     if path.endswith('.ndjson'):
         return parts_kernel.replay_trace(PID, path)
     import json
+    if json.load(open(path))['replay'].get('module') == 'SubjectGen':
+        return parts_subject.replay_case(PID, path)
     if json.load(open(path))['replay'].get('module') in ('MultiGen', 'HOGen'):
         return parts_multi.replay_case(PID, path)
     return pp.replay_case(PID, path)
